@@ -55,6 +55,12 @@ type transferImplementation interface {
 const (
 	enableHrefRewriteKey     = "lfs.transfer.enablehrefrewrite"
 	defaultEnableHrefRewrite = false
+
+	// maxAuthResubmissions is how often a transfer request that was
+	// refused for want of credentials is sent again within one attempt
+	// (the refusal may have taught us the access mode). A server that
+	// keeps refusing must not keep us asking for ever.
+	maxAuthResubmissions = 3
 )
 
 func newAdapterBase(f *fs.Filesystem, name string, dir Direction, ti transferImplementation) *adapterBase {
